@@ -22,12 +22,18 @@ theorem C01_signing_tables :
        ("plugins", "out[\"plugins\"] = EmptyToNilSlice(c.Plugins)"), ("matrix", "out[\"matrix\"] = EmptyToNilPtr(c.Matrix)"),
        ("repository_url", "out[\"repository_url\"] = c.RepositoryURL")] := by decide
 
-/-- Well-formedness of what is signed / presented: number literals inside plugin configs and the
-    matrix are number tokens, and no value map has two members of the same name. -/
-def ValuesOK (v : List (String × Val)) : Prop :=
-  WFMembers (valJKVs v) ∧ KeysDistinct (.obj (valJKVs v))
-
 variable (S : SigScheme)
+
+/-! `ValuesOK v` (defined in `Lemmas/Signing.lean`, so that the lemma `sound` can mention it):
+    well-formedness of what is signed / presented — number literals inside plugin configs and the
+    matrix are number tokens, and no value map has two members of the same name:
+    `WFMembers (valJKVs v) ∧ KeysDistinct (.obj (valJKVs v))`.
+    `verifyRequired` (same file) is the `required` map `Verify` recomputes:
+    `verifyPayload S r c repo env = (verifyRequired S r c repo env).map (payload r.algorithm)`. -/
+example (v : List (String × Val)) : ValuesOK v ↔ (WFMembers (valJKVs v) ∧ KeysDistinct (.obj (valJKVs v))) := Iff.rfl
+theorem C01_verifyRequired_spec (r : Record S) (c : CommandStep) (repo : String) (env : List (String × String)) :
+    verifyPayload S r c repo env = (verifyRequired S r c repo env).map (payload r.algorithm) :=
+  verifyPayload_eq S r c repo env
 
 /-! ### Soundness: what a successful verification implies -/
 
@@ -56,7 +62,7 @@ theorem C01_sound (k : S.Key) (alg : String) (c₀ : CommandStep) (repo₀ : Str
     (hv : verify S r' pub c₁ repo₁ env₁ = .ok ())
     (hp₀ : (penv₀.map (·.1)).Nodup) (hp₁ : (env₁.map (·.1)).Nodup)
     (hok₀ : ValuesOK (signValues c₀ repo₀ penv₀))
-    (hok₁ : ∀ req, verifyPayload S r' c₁ repo₁ env₁ = .ok (payload r'.algorithm req) → ValuesOK req) :
+    (hok₁ : ∀ req, verifyRequired S r' c₁ repo₁ env₁ = .ok req → ValuesOK req) :
     r'.algorithm = alg ∧
     c₁.command = c₀.command ∧ repo₁ = repo₀ ∧
     Equiv (valJ (envField c₁.env)) (valJ (envField c₀.env)) ∧
